@@ -123,6 +123,15 @@ def gen_set_cases(rng, tier):
                 yield dict(cls="odd-time", pattern=bits(p), state=st, start=t, end="23:30", how="set_state")
                 yield dict(cls="odd-time", pattern=bits(p), state=st, start="00:00", end=t, how="set_state")
                 yield dict(cls="odd-time", pattern=bits(p), state=st, start=t, end=t, how="set_state")
+    # hand-made days of other lengths (outside the statement; the model says IndexError + partial edit)
+    for n in list(range(0, 48)) + [49, 50, 56, 96]:
+        for _ in range(4 if quick else 40):
+            p = [bool(rng.getrandbits(1)) for _ in range(n)]
+            i = rng.randrange(48)
+            a, b = TIMES[i], rng.choice(TIMES + ["00:00"] * 8)
+            if rng.random() < 0.5 and n:
+                a = TIMES[rng.randrange(min(n, 48))]
+            yield dict(cls="other-length", pattern=bits(p), state=rng.choice(STATES + ("auto",)), start=a, end=b, how="set_state")
     for _ in range(1500 if quick else 60000):
         p = rng.choice(pats)
         a = f"{rng.randrange(24):02d}:{rng.randrange(60):02d}"
@@ -140,8 +149,14 @@ def gen_set_cases(rng, tier):
 
 def spec_set(c, after, out):
     """the statement, for aligned times and valid/invalid states: returns None or the clause violated"""
-    before = [ch == "1" for ch in c["pattern"]]
+    before = [ch == "1" for ch in c["pattern"] if ch in "01"]
     st, a, b = c["state"], c["start"], c["end"]
+    if len(before) != 48:
+        # a hand-made day of another length is outside the statement (IndexError mid-loop edits it
+        # partially: modelled, theorem set_partial_on_short_day); only ValueError-inertness is judged
+        if out == "ValueError" and after != before:
+            return "ValueError changed the day"
+        return None
     if len(after) != 48:
         return "the day no longer has 48 slots"
     if out not in ("ok", "ValueError"):
@@ -172,7 +187,7 @@ def run_set_cases(cases, res):
     reqs = []
     obs = []
     for c in cases:
-        before = [ch == "1" for ch in c["pattern"]]
+        before = [ch == "1" for ch in c["pattern"] if ch in "01"]
         after, out, same = call_set(before, c["state"], c["start"], c["end"], c["how"])
         obs.append((after, out, same))
         pa = parse_time(c["start"]) if isinstance(c["start"], str) else "x"
@@ -182,7 +197,7 @@ def run_set_cases(cases, res):
     # the Lean predicate C18.specSet judges what the implementation did on aligned calls
     jreqs, jidx = [], {}
     for k, (c, (after, out, same)) in enumerate(zip(cases, obs)):
-        if c["start"] in TIMES and c["end"] in TIMES and len(after) <= 64:
+        if c["start"] in TIMES and c["end"] in TIMES and len(c["pattern"]) == 48 and c["pattern"] != "-":
             st = c["state"]
             valid = isinstance(st, str) and st in STATES
             jidx[k] = len(jreqs)
@@ -403,6 +418,11 @@ def spec_commit(c, outs, payload):
     if payload != want.hex():
         return "payload is not [1, index, switch, parameter] + the received bitmap with exactly the edits applied"
     # expected slots for the Lean judge C18.specCommit
+    if all(a in TIMES and b in TIMES for _, _, _, a, b in c["edits"]):
+        # C18.specCommit with the statement's slot-level expectation over the RECEIVED bitmap (theorem holds_commit_slots)
+        slots = " ".join(f"{DAYS.index(day)},{int(st in STATES)},{int(st in ON)},{TIMES.index(a)},{TIMES.index(b)}"
+                         for idx, day, st, a, b in c["edits"] if idx == c["commit"])
+        return ("judge", f"s.judgeslots {c['commit']} {entry[1]} {entry[2]} {bytes(entry[5:]).hex()} {payload} {slots}".rstrip())
     table = "/".join("".join("1" if bm[6 * d + i // 8] & (0x80 >> (i % 8)) else "0" for i in range(48)) for d in range(7))
     return ("judge", f"s.judgecommit {c['commit']} {entry[1]} {entry[2]} {table} {payload}")
 
@@ -447,6 +467,220 @@ def run_commit_cases(cases, res):
         if v != "pass":
             res.fail("spec", c, "C18.specCommit", dict(edits=outs, payload=payload, judge=v), "C18.specCommit (Lean judge) rejects the committed payload")
 
+
+
+# ---------------------------------------------------------------------------------------------
+# part 2b: histories with a write queue -- response / edit / commit / drain in any order.
+# The queued request is serialised when it is DRAINED (as the producer does), not at commit time.
+
+
+def flip_slot(bm, k):
+    bm = bytearray(bm)
+    bm[k // 8] ^= 0x80 >> (k % 8)
+    return bytes(bm)
+
+
+def gen_history(rng, i):
+    pool = rng.sample(range(40), rng.choice([1, 1, 2, 3]))
+    base = {j: mk_entry(rng, j) for j in pool}
+    evs = [["r", mk_response(rng, [base[j] for j in pool]).hex()]]
+    deferred = i % 2 == 1          # half of the histories leave frames queued while edits go on
+    n = rng.randint(3, 12)
+    for _ in range(n):
+        r = rng.random()
+        idx = rng.choice(pool)
+        if r < 0.45:
+            e = rnd_edit(rng, idx if rng.random() < 0.85 else rng.randrange(40), malformed=0.06)
+            evs.append(["e"] + e)
+        elif r < 0.70:
+            evs.append(["c", idx])
+            if not deferred or rng.random() < 0.25:
+                evs.append(["d"])
+        elif r < 0.80:
+            evs.append(["d"])
+        else:
+            # a further response: same schedules again (equal / one late slot / one early slot / all different),
+            # a subset, or other schedules only
+            kind = rng.choice(["equal", "late-slot", "early-slot", "different", "subset", "others", "unknown-idx", "truncated"])
+            if kind == "others":
+                ent = [mk_entry(rng, j) for j in rng.sample([x for x in range(40) if x not in pool], 1)]
+            else:
+                members = pool if kind != "subset" else rng.sample(pool, max(1, len(pool) - 1))
+                ent = []
+                for j in members:
+                    e = dict(base[j])
+                    bm = bytes.fromhex(e["bm"])
+                    if kind == "late-slot":
+                        d = rng.randrange(7)
+                        bm = flip_slot(bm, 48 * d + rng.randrange(2, 48))
+                    elif kind == "early-slot":
+                        bm = flip_slot(bm, 48 * rng.randrange(7) + rng.randrange(0, 2))
+                    elif kind == "different":
+                        e = mk_entry(rng, j)
+                        bm = bytes.fromhex(e["bm"])
+                    e["bm"] = bm.hex()
+                    ent.append(e)
+                    base[j] = e
+                if kind == "unknown-idx":
+                    ent.append(mk_entry(rng, rng.choice([40, 77, 255])))
+            resp = mk_response(rng, ent)
+            if kind == "truncated":
+                resp = resp[: rng.randrange(3, len(resp))]
+            evs.append(["r", resp.hex()])
+    evs += [["d"]] * (sum(1 for e in evs if e[0] == "c") + 1)
+    return dict(part="history", cls="deferred" if deferred else "immediate", events=evs)
+
+
+def run_histories_impl(cases):
+    from pyplumio.devices.ecomax import EcoMAX
+    from pyplumio.frames.responses import SchedulesResponse
+    from pyplumio.structures.network_info import NetworkInfo
+    from pyplumio.structures.schedules import SCHEDULES
+
+    async def quiesce():
+        me = asyncio.current_task()
+        for _ in range(10000):
+            if not [t for t in asyncio.all_tasks() if t is not me and not t.done()]:
+                return
+            await asyncio.sleep(0)
+        raise RuntimeError("no quiescence")
+
+    async def one(c):
+        asyncio.get_running_loop().set_exception_handler(lambda *_: None)
+        device = EcoMAX(asyncio.Queue(), NetworkInfo())
+        outs = []
+        try:
+            for ev in c["events"]:
+                if ev[0] == "r":
+                    try:
+                        device.handle_frame(SchedulesResponse(message=bytearray(bytes.fromhex(ev[1]))))
+                        outs.append("received")
+                    except Exception:  # noqa: BLE001
+                        outs.append("err")
+                    await quiesce()
+                elif ev[0] == "e":
+                    _, idx, day, st, a, b = ev
+                    try:
+                        getattr(device.data["schedules"][SCHEDULES[idx]], day).set_state(st, a, b)
+                        outs.append("ok")
+                    except Exception as e:  # noqa: BLE001
+                        outs.append(type(e).__name__)
+                elif ev[0] == "c":
+                    try:
+                        await device.data["schedules"][SCHEDULES[ev[1]]].commit()
+                        await quiesce()
+                        outs.append("queued")
+                    except Exception as e:  # noqa: BLE001
+                        outs.append(type(e).__name__)
+                else:
+                    if device.queue.empty():
+                        outs.append("idle")
+                    else:
+                        req = device.queue.get_nowait()
+                        outs.append(bytes(req.message).hex() if type(req).__name__ == "SetScheduleRequest" else "!" + type(req).__name__)
+            return outs
+        finally:
+            await device.shutdown()
+
+    async def main():
+        return [await one(c) for c in cases]
+
+    return vloop.run(main())
+
+
+def history_oracle(c):
+    """the statement, event by event: per drain (snapshot payload at commit time, position of the commit,
+    idx); the schedules of the LAST accepted response with the effective aligned edits made after it"""
+    cur = {}      # idx -> bytearray bitmap (schedules of the last accepted response)
+    sw, par = {}, {}
+    queue = []
+    drains = {}   # event position of a drain -> (snapshot hex, commit position, idx)
+    for pos, ev in enumerate(c["events"]):
+        if ev[0] == "r":
+            resp = bytes.fromhex(ev[1])
+            if len(resp) < 3:
+                cur = {}
+                continue
+            n = resp[2]
+            if len(resp) < 3 + 47 * n:
+                continue
+            ents = [resp[3 + 47 * k: 3 + 47 * (k + 1)] for k in range(n)]
+            if any(e[0] >= 40 for e in ents):
+                continue
+            cur = {}
+            for e in ents:
+                cur[e[0]] = bytearray(e[5:])
+                sw[e[0]] = e[1]
+                if tuple(e[2:5]) != (255, 255, 255):
+                    par[e[0]] = e[2]
+        elif ev[0] == "e":
+            _, idx, day, st, a, b = ev
+            if idx in cur and st in STATES and a in TIMES and b in TIMES:
+                lo, hi = TIMES.index(a), (47 if b == "00:00" else TIMES.index(b))
+                if hi > lo:
+                    d = DAYS.index(day)
+                    for i in range(lo, hi + 1):
+                        if st in ON:
+                            cur[idx][6 * d + i // 8] |= 0x80 >> (i % 8)
+                        else:
+                            cur[idx][6 * d + i // 8] &= ~(0x80 >> (i % 8)) & 0xFF
+        elif ev[0] == "c":
+            idx = ev[1]
+            if idx in cur and idx in sw and idx in par:
+                queue.append(((bytes([1, idx, sw[idx], par[idx]]) + bytes(cur[idx])).hex(), pos, idx))
+        else:
+            if queue:
+                drains[pos] = queue.pop(0)
+    return drains
+
+
+def run_history_cases(cases, res):
+    def tok(ev):
+        if ev[0] == "r":
+            return "r:" + hexs(bytes.fromhex(ev[1]))
+        if ev[0] == "e":
+            _, i, d, st, a, b = ev
+            return f"e:{i},{d},{state_token(st)},{parse_time(a)},{parse_time(b)}"
+        if ev[0] == "c":
+            return f"c:{ev[1]}"
+        return "d"
+
+    answers = driver_batch("s.sys " + " ".join(tok(ev) for ev in c["events"]) for c in cases)
+    obs = run_histories_impl(cases)
+    for c, ans, o in zip(cases, answers, obs):
+        res.count("history:" + c["cls"])
+        res.count("history-responses:%d" % min(3, sum(1 for e in c["events"] if e[0] == "r")))
+        model = ans.split()
+        drains = history_oracle(c)
+        res.case(json.dumps(c["events"]), nontrivial=bool(drains))
+        accepted = list(model)
+        f6 = False
+        for pos, (snap, cpos, idx) in drains.items():
+            later_edit = any(e[0] == "e" and e[1] == idx for e in c["events"][cpos + 1: pos])
+            if later_edit:
+                res.count("history-drain:edit-between-commit-and-write")
+            else:
+                res.count("history-drain:no-edit-in-between")
+            got = o[pos] if pos < len(o) else None
+            if got != snap:
+                if later_edit:
+                    f6 = True
+                    res.fail("spec", c, dict(drain_event=pos, commit_event=cpos, commit_time_payload=snap), got,
+                             "the transmitted set-schedule payload is not the week as committed: an edit made after commit() "
+                             "and before the write is transmitted too", finding="F6")
+                else:
+                    res.fail("spec", c, dict(drain_event=pos, commit_event=cpos, commit_time_payload=snap), got,
+                             "the transmitted payload is not [1, index, switch, parameter] + the bitmap of the last received "
+                             "response with exactly the edits made after it (no edit between commit and write)")
+            elif later_edit and pos < len(accepted) and accepted[pos] != snap:
+                accepted[pos] = snap   # the implementation snapshots at commit time: finding F6 no longer reproduces
+                res.count("history-drain:F6-not-reproduced")
+        if o != accepted:
+            k = next((i for i, (x, y) in enumerate(zip(o, accepted)) if x != y), min(len(o), len(accepted)))
+            res.fail("corr", c, dict(model=accepted[k] if k < len(accepted) else None, at_event=k),
+                     dict(impl=o[k] if k < len(o) else None), "model and device differ on a response / edit / commit / drain history")
+        if f6 and not any(s.get("part") == "history" for s in res.samples):
+            res.sample(dict(part="history", events=[e if e[0] != "r" else ["r", e[1][:24] + "..."] for e in c["events"]], observed=o), limit=10)
 
 # ---------------------------------------------------------------------------------------------
 # part 3: codec functions directly (split / join on all bytes, decode / encode on random bitmaps)
@@ -496,7 +730,9 @@ RULE = ("set_state: exhaustively all 48x48 half-hour aligned (start, end) pairs 
         "times, random non-aligned minutes; commit: SchedulesResponse payloads (1-5 or all 40 entries, random / single-bit / whole-day bitmaps, "
         "every schedule kind committed in turn, switch and parameter values) fed to a real EcoMAX via handle_frame, edited through the Schedule "
         "objects it created, Schedule.commit() and the queued SetScheduleRequest payload; second responses, duplicate / unknown indexes, undefined "
-        "parameter, truncated payloads; codec functions on all 256 bytes and random bitmaps. distinct = distinct input; "
+        "parameter, truncated payloads; histories of responses (repeated for the same schedule: equal, one late / early slot flipped, "
+        "all different, subsets, other schedules, unknown index, truncated) / edits / commits / drains with the queued request serialised only "
+        "when drained (half of them with edits between commit and write); hand-made days of other lengths; codec functions on all 256 bytes and random bitmaps. distinct = distinct input; "
         "non-trivial = the call changed the day / at least one edit took effect before the commit")
 
 
@@ -509,8 +745,11 @@ def run(ctx):
     commit_cases = [c for c in corpus if c.get("part") == "commit"] + list(gen_commit_cases(rng, ctx["tier"]))
     if ctx.get("max_cases"):
         set_cases, commit_cases = set_cases[: ctx["max_cases"]], commit_cases[: ctx["max_cases"]]
+    hist_cases = [c for c in corpus if c.get("part") == "history"] + \
+        [gen_history(rng, i) for i in range(500 if ctx["tier"] == "quick" else 12000)]
     run_set_cases(set_cases, res)
     run_commit_cases(commit_cases, res)
+    run_history_cases(hist_cases, res)
     run_codec(rng, ctx["tier"], res)
     res.extra["aligned_pairs_enumerated_completely"] = True
     res.extra["schedule_kinds_committed"] = len({c["commit"] for c in commit_cases})
@@ -524,6 +763,8 @@ def replay(ctx):
     c = f["input"]
     if c.get("part") == "commit":
         run_commit_cases([c], res)
+    elif c.get("part") == "history":
+        run_history_cases([c], res)
     elif c.get("part") == "set":
         c = dict(c)
         c.setdefault("how", "set_state")
